@@ -23,6 +23,7 @@
 EXTENDS Any
 
 CONSTANTS Vals, Fuses, MCCastForms,
+          AFuses,      \* settings of the allocation-failure fuse explored (0 = none)
           CountOps     \* TRUE: write "op:outcome" of every transition (vacuity evidence of the thorough tier)
 
 n1 == NA + 1
@@ -37,13 +38,13 @@ Cp(j, n) == [u[j] EXCEPT !.loc = n]                         \* an equal untracke
 Gone(j) == [u[j] EXCEPT !.v = MOVED]
 Out(ev, res, S) == [ev |-> ev, res |-> res, S |-> S]
 Relocatable(x) == T(x) # "STM"          \* nothrow move constructor: an implementation may move the object itself
-MovableAway == {"Str", "Sp", "Nest"}    \* untracked types whose moved-from value differs from the original
+MovableAway == {"Str", "Sp", "Nest", "Var"}    \* untracked types whose moved-from value differs from the original
 FormKind(f) == IF f = "rv" THEN "move" ELSE "copy"
 Capable(t, kind) == (kind = "copy" /\ t \notin NothrowCopy) \/ (kind = "move" /\ t = "STM")    \* can be made to throw
 (* what is in any i, placed into any k at a fresh place n *)
 Into(S, k, i, n) == IF a[i] = UNT THEN Put(S, k, UNT, Cp(i, n)) ELSE PutT(S, k, a[i])
 
-Ref(op, k, g) ==
+Ref0(op, k, g) ==
     LET x == a[k]
         j == IF "j" \in DOMAIN g THEN g.j ELSE k
         y == a[j]
@@ -123,6 +124,18 @@ Ref(op, k, g) ==
             ELSE {Out(<<>>, NullRes, St)}
       [] OTHER -> {}
 
+(* with the allocation fuse armed the call may also end with bad_alloc before any payload object is made
+   (after the caller's own value has been constructed, which is destroyed again) - or not allocate at all *)
+AllocFail(op, k, g) ==
+    LET j == IF "j" \in DOMAIN g THEN g.j ELSE k IN
+    IF AF(g) = 0 \/ op \notin AllocatingOps THEN {}
+    ELSE IF op \in {"Construct", "AssignValue"}
+      THEN IF g.t \in UntrackedTypes THEN {Out(<<>>, AllocRes, St)}
+           ELSE {Out(<<ECtor(n1, g.t, "value", 0, g.v), EDtor(n1, g.t)>>, AllocRes, St)}
+    ELSE IF a[j] >= UNT /\ j # k THEN {Out(<<>>, AllocRes, St)}
+    ELSE {}
+Ref(op, k, g) == Ref0(op, k, g) \cup AllocFail(op, k, g)
+
 Do(op, k, g) ==
     /\ Pre(op, k, g)
     /\ \E o \in Ref(op, k, g) :
@@ -137,13 +150,13 @@ Do(op, k, g) ==
 CastTargets == Types \cup {"CharP"}
 
 NDefaultConstruct == \E k \in Anys, f \in Fuses : Do("DefaultConstruct", k, [fuse |-> f])
-NConstruct   == \E k \in Anys, f \in Fuses, t \in Types, v \in Vals, fm \in ValueForms \cup {"decay"} :
-                    fm \in FormsOf(t) /\ Do("Construct", k, [t |-> t, v |-> v, form |-> fm, fuse |-> f])
-NAssignValue == \E k \in Anys, f \in Fuses, t \in Types, v \in Vals, fm \in ValueForms \cup {"decay"} :
-                    fm \in FormsOf(t) /\ Do("AssignValue", k, [t |-> t, v |-> v, form |-> fm, fuse |-> f])
-NCopyConstruct == \E k \in Anys, f \in Fuses, j \in Anys : Do("CopyConstruct", k, [j |-> j, fuse |-> f])
+NConstruct   == \E k \in Anys, f \in Fuses, af \in AFuses, t \in Types, v \in Vals, fm \in ValueForms \cup {"decay"} :
+                    fm \in FormsOf(t) /\ Do("Construct", k, [t |-> t, v |-> v, form |-> fm, fuse |-> f, afuse |-> af])
+NAssignValue == \E k \in Anys, f \in Fuses, af \in AFuses, t \in Types, v \in Vals, fm \in ValueForms \cup {"decay"} :
+                    fm \in FormsOf(t) /\ Do("AssignValue", k, [t |-> t, v |-> v, form |-> fm, fuse |-> f, afuse |-> af])
+NCopyConstruct == \E k \in Anys, f \in Fuses, af \in AFuses, j \in Anys : Do("CopyConstruct", k, [j |-> j, fuse |-> f, afuse |-> af])
 NMoveConstruct == \E k \in Anys, f \in Fuses, j \in Anys : Do("MoveConstruct", k, [j |-> j, fuse |-> f])
-NCopyAssign  == \E k \in Anys, f \in Fuses, j \in Anys : Do("CopyAssign", k, [j |-> j, fuse |-> f])
+NCopyAssign  == \E k \in Anys, f \in Fuses, af \in AFuses, j \in Anys : Do("CopyAssign", k, [j |-> j, fuse |-> f, afuse |-> af])
 NMoveAssign  == \E k \in Anys, f \in Fuses, j \in Anys : Do("MoveAssign", k, [j |-> j, fuse |-> f])
 NSwap        == \E k \in Anys, f \in Fuses, j \in Anys : Do("Swap", k, [j |-> j, fuse |-> f])
 NStdSwap     == \E k \in Anys, f \in Fuses, j \in Anys : Do("StdSwap", k, [j |-> j, fuse |-> f])
